@@ -72,3 +72,34 @@ func VerifC12_DuplicateTags() {
 	}
 	vrt.Reach("end")
 }
+
+// VerifC12_PrefixTagKeys: three tags in any order where one key extends another by one arbitrary
+// printable byte ("k" and "kX"): the line is accepted and the point's tags come out sorted by key, so
+// the series key is the same whichever order the client wrote them in.
+func VerifC12_PrefixTagKeys() {
+	k, x := vrt.Byte("k"), vrt.Byte("x")
+	vrt.Assume(vrt.And(k >= 'a', k <= 'y'))
+	vrt.Assume(vrt.And(x > ' ', x < 0x7f, x != ',', x != '=', x != '\\'))
+	toks := [][]byte{{k, '=', '1'}, {k, x, '=', '2'}, []byte("z=3")}
+	perms := [][3]int{{0, 1, 2}, {0, 2, 1}, {1, 0, 2}, {1, 2, 0}, {2, 0, 1}, {2, 1, 0}}
+	pm := perms[vrt.Choose("order", 0, 5)]
+	line := []byte("m")
+	for _, i := range pm {
+		line = append(line, ',')
+		line = append(line, toks[i]...)
+	}
+	line = append(line, " v=1i 7"...)
+	pts, err := ParsePointsWithPrecision(line, verifDefaultTime, "ns")
+	vrt.Assert(err == nil && len(pts) == 1, "prefix tags: the line is accepted")
+	if len(pts) == 1 {
+		verifCheckPoint(pts[0])
+		tags := pts[0].Tags()
+		vrt.Assert(len(tags) == 3, "prefix tags: three tags")
+		if len(tags) == 3 {
+			vrt.Assert(vrt.And(len(tags[0].Key) == 1, tags[0].Key[0] == k, len(tags[1].Key) == 2, string(tags[2].Key) == "z"), "prefix tags: the shorter key sorts first")
+			want := MakeKey([]byte("m"), tags)
+			vrt.Assert(bytes.Equal(pts[0].Key(), want), "prefix tags: the series key is MakeKey of the sorted tags")
+		}
+	}
+	vrt.Reach("end")
+}
